@@ -15,7 +15,7 @@ use serde::{Deserialize, Serialize};
 use crate::{
   io::{IoStats, SimWriter},
   model::{decode_mappings, resolve_map_segs, Attr, RSeg},
-  sched::{self, user_point, Cancelled, SimAbort},
+  sched::{self, fault_point, user_point, Cancelled, SimAbort},
   spec::OpKind,
 };
 
@@ -234,6 +234,7 @@ fn do_stream<'a>(
         if cb_points {
           user_point("cb.chunk");
         }
+        fault_point();
         if abort_at == Some(count) {
           std::panic::resume_unwind(Box::new(Cancelled));
         }
@@ -244,12 +245,14 @@ fn do_stream<'a>(
         if cb_points {
           user_point("cb.source");
         }
+        fault_point();
         sources.push((i, name, content));
       },
       &mut |i, name| {
         if cb_points {
           user_point("cb.name");
         }
+        fault_point();
         names.push((i, name));
       },
     )
@@ -422,6 +425,18 @@ fn exec_inner(src: &Dyn, objs: &[&Dyn], kind: &OpKind, ctx: &ExecCtx) -> Answer 
           exec_inner(inner, objs, then, ctx)
         }
         None => Answer::Bool(true),
+      }
+    }
+    OpKind::ChildFault { at, then } => {
+      let armed = sched::arm_fault(*at);
+      let r = catch_unwind(AssertUnwindSafe(|| exec_inner(src, objs, then, ctx)));
+      drop(armed);
+      match r {
+        Ok(a) => a,
+        Err(p) if p.is::<Cancelled>() => Answer::Aborted {
+          chunks_before: u32::MAX,
+        },
+        Err(p) => std::panic::resume_unwind(p),
       }
     }
     OpKind::CloneThen { then } => {
